@@ -67,6 +67,13 @@ type absState struct {
 	committee  []cvRec
 	regPrice   int64
 	decodeErrs []string
+	// governance getters of the Blockchain
+	nextVals  keys.PublicKeys         // GetNextBlockValidators
+	neVals    keys.PublicKeys         // ComputeNextBlockValidators
+	sortedCom keys.PublicKeys         // GetCommittee
+	enroll    []state.Validator       // GetEnrollments (= NEO.getCandidates)
+	blocked   map[util.Uint160]bool   // Policy storage, prefix 15
+	unclaimed map[util.Uint160]string // CalculateClaimable(acc, height+1) of every NEO account
 }
 
 func (w *world) dump() *absState {
@@ -173,6 +180,29 @@ func (w *world) dump() *absState {
 			}
 		}
 	}
+	s.nextVals, _ = w.bc.GetNextBlockValidators()
+	s.neVals = w.bc.ComputeNextBlockValidators()
+	s.sortedCom, _ = w.bc.GetCommittee()
+	s.enroll, _ = w.bc.GetEnrollments()
+	s.blocked = map[util.Uint160]bool{}
+	w.bc.SeekStorage(nativeids.PolicyContract, []byte{15}, func(k, v []byte) bool {
+		h, err := util.Uint160DecodeBytesBE(k)
+		if err != nil {
+			bad("blocked account key %x", k)
+			return true
+		}
+		s.blocked[h] = true
+		return true
+	})
+	s.unclaimed = map[util.Uint160]string{}
+	for h := range s.neo {
+		g, err := w.bc.CalculateClaimable(h, s.height+1)
+		if err != nil {
+			s.unclaimed[h] = "err"
+		} else {
+			s.unclaimed[h] = g.String()
+		}
+	}
 	w.bc.SeekStorage(nativeids.Notary, []byte{pfxDeposit}, func(k, v []byte) bool {
 		h, err := util.Uint160DecodeBytesBE(k)
 		if err != nil {
@@ -255,5 +285,81 @@ func (w *world) line(s *absState) string {
 		es = append(es, ent{id, fmt.Sprintf("%d:%s", id, v)})
 	}
 	emitSorted(es)
+	return sb.String()
+}
+
+// govLine: the observations of the governance getters, of the unclaimed GAS of every NEO holder and of
+// the block's Transfer events, in the format of the driver's `endblock` answer.
+func (w *world) govLine(s *absState, xs []xfer) string {
+	var sb strings.Builder
+	list := func(name string, es []string) {
+		sb.WriteString(" " + name + "=[" + strings.Join(es, ",") + "]")
+	}
+	pubs := func(ps keys.PublicKeys) []string {
+		var es []string
+		for _, p := range ps {
+			es = append(es, fmt.Sprint(w.pid(p)))
+		}
+		return es
+	}
+	var es []string
+	for _, c := range s.committee {
+		es = append(es, fmt.Sprintf("%d:%s", w.pid(c.pub), c.votes))
+	}
+	list("cm", es)
+	list("nv", pubs(s.nextVals))
+	list("nev", pubs(s.neVals))
+	es = nil
+	for _, v := range s.enroll {
+		es = append(es, fmt.Sprintf("%d:%s", w.pid(v.Key), v.Votes))
+	}
+	list("gc", es)
+	list("gcm", pubs(s.sortedCom))
+	var ids []int
+	for h := range s.blocked {
+		ids = append(ids, w.aid(h))
+	}
+	sort.Ints(ids)
+	es = nil
+	for _, id := range ids {
+		es = append(es, fmt.Sprint(id))
+	}
+	list("bl", es)
+	ids = nil
+	byID := map[int]string{}
+	for h, g := range s.unclaimed {
+		id := w.aid(h)
+		ids = append(ids, id)
+		byID[id] = g
+	}
+	sort.Ints(ids)
+	es = nil
+	for _, id := range ids {
+		es = append(es, fmt.Sprintf("%d:%s", id, byID[id]))
+	}
+	list("uc", es)
+	opt := func(h *util.Uint160) string {
+		if h == nil {
+			return "-"
+		}
+		return fmt.Sprint(w.aid(*h))
+	}
+	es = nil
+	for _, x := range xs {
+		t := "g"
+		if x.neo {
+			t = "n"
+		} else {
+			if x.from == nil {
+				w.minted.Add(w.minted, x.amt)
+			}
+			if x.to == nil {
+				w.burned.Add(w.burned, x.amt)
+			}
+		}
+		es = append(es, fmt.Sprintf("%s:%s:%s:%s", t, opt(x.from), opt(x.to), x.amt))
+	}
+	fmt.Fprintf(&sb, " mb=%s:%s", w.minted, w.burned)
+	list("ev", es)
 	return sb.String()
 }
